@@ -311,9 +311,23 @@ func Lines(s string) []string {
 	return out
 }
 
-// Field822 returns the (unfolded, first-line) value of a "Key: value" field of a deb822 stanza.
+// Field822 returns the (unfolded, first-line) value of a "Key: value" field of the FIRST deb822 stanza of text.
 func Field822(text, key string) (string, bool) {
+	seen := false
 	for _, l := range Lines(text) {
+		blank := true
+		for i := 0; i < len(l); i++ {
+			if l[i] != ' ' && l[i] != '\t' {
+				blank = false
+			}
+		}
+		if blank {
+			if seen {
+				break // a blank line ends the stanza: what follows belongs to no package
+			}
+			continue
+		}
+		seen = true
 		if len(l) > len(key)+1 && l[:len(key)] == key && l[len(key)] == ':' {
 			v := l[len(key)+1:]
 			for len(v) > 0 && v[0] == ' ' {
